@@ -4,13 +4,15 @@ import Driver.Body
 import Driver.Engine
 import Driver.Memo
 import Driver.Decode
+import Driver.Http
 /-!
   Line-protocol driver.  One request per line:
 
       <engine> <arg> … => <observed implementation output tokens>
 
   Reply per line:
-      A                    model output = observed output
+      A                    model output = observed output (and the property predicate holds)
+      V 0 <model out>      model = implementation, but the property predicate is false of both
       D <P> <model out>    they differ; P = property predicate on the observed output (1 = holds)
       X <P>                input outside the modelled fragment; only the monitor ran
       E <msg>              malformed line
@@ -31,6 +33,7 @@ def engineModel (eng : String) (args : List String) : Option String :=
   | "iso" => Eng.isoModel args
   | "audit" => Eng.auditModel args
   | "decode" => Decode.model args
+  | "http" => Http.model args
   | _ => none
 
 def engineJudge (eng : String) (args obs : List String) : Bool :=
@@ -48,6 +51,7 @@ def engineJudge (eng : String) (args obs : List String) : Bool :=
      | [r, b, e] => b == "bad=0" && (r.drop 8).toString == (e.drop 9).toString
      | _ => false)
   | "decode" => Decode.judge args obs
+  | "http" => Http.judge args obs
   | "memo" => Memo.judge args obs
   | "iso" => (match Eng.isoModel args with | some m => m == " ".intercalate obs | none => !obs.contains "PANIC")
   | _ => true
@@ -61,7 +65,9 @@ def handle (line : String) : String :=
     let p := if engineJudge eng args obs then "1" else "0"
     match engineModel eng args with
     | none => s!"X {p}"
-    | some m => if m == " ".intercalate obs then "A" else s!"D {p} {m}"
+    | some m =>
+      if m == " ".intercalate obs then (if p == "1" then "A" else s!"V 0 {m}")   -- agree, but the property fails of both
+      else s!"D {p} {m}"
 
 partial def loop (hin hout : IO.FS.Stream) : IO Unit := do
   let line ← hin.getLine
